@@ -76,6 +76,14 @@ def run(ck):
                 stops = [e for e in p.effects[n0:] if e.kind == "setattr" and e.detail in ("_stop_training", "stop_training")]
                 g = gate_decisions(p)
                 if not gv and not stops:
+                    # a checked epoch (multiple of the period) with more than p evaluations recorded on which the criterion is not even
+                    # evaluated: whatever else the path tested, a stop that is due at this epoch is missed
+                    enough = any(ints.positive_on_path(T.sym(s_) - p_, {}, p.conds) is True for s_ in _len_syms(p))
+                    if g and g[0] is True and enough:
+                        ck.violation("C18.R1", inst + ":the criterion is evaluated at every checked epoch with enough history [%s]" % _c(p), osite,
+                                     "on a multiple of the period, with more than p evaluations recorded, on_epoch_end returns without evaluating the convergence criterion (path conditions: %s): "
+                                     "a stop that is due at this epoch is missed (evaluator and stopper periods may differ)" % ", ".join("%s=%s" % (c[1][:40], c[2]) for c in p.conds)[:240],
+                                     key="C18.R1|EarlyStopping|check skipped")
                     continue
                 # ---------------- evaluation only under the period gate
                 ck.check(bool(g) and g[0] is True, "C18.R2", inst + ":checked only on multiples of the period [%s]" % _c(p), osite, "the convergence test runs on an epoch that is not a multiple of the period")
